@@ -36,8 +36,13 @@ class Instance:
     fenc/aenc in {"N","L"}: "N" frequency = j*fscale, amplitude = level*ascale;
     "L" frequency = exp(j/q), amplitude = exp(level/q)."""
 
-    def __init__(self, nf, fenc="N", aenc="N", fscale=0.02, q=4.0, ascale=1.0, azimuths=None, alias=False):
+    def __init__(self, nf, fenc="N", aenc="N", fscale=0.02, q=4.0, ascale=1.0, azimuths=None, alias=False, aoff=0.0):
         self.nf, self.fenc, self.aenc, self.fscale, self.q, self.ascale = nf, fenc, aenc, fscale, q, ascale
+        # "N" amplitudes = aoff + level * ascale: a large offset with a tiny scale gives curves that are nearly identical
+        # (relative scatter ~1e-6) while every value stays exact in binary - estimators must not lose the scatter
+        self.aoff = aoff
+        if aoff and aenc != "N":
+            raise ValueError("an amplitude offset is only defined for the normal encoding")
         self.azimuths = azimuths
         self.alias = alias      # spell the lognormal distribution with its documented alias "log-normal"
         j = np.arange(1, nf + 1, dtype=float)
@@ -50,11 +55,11 @@ class Instance:
             self._unhz[self.hz(h)] = h
 
     def name(self):
-        return f"f{self.fenc}a{self.aenc}" + ("~alias" if self.alias else "")
+        return f"f{self.fenc}a{self.aenc}" + ("~alias" if self.alias else "") + (f"+{self.aoff}" if self.aoff else "")
 
     def amp(self, levels):
         a = np.array(levels, dtype=float)
-        return a * self.ascale if self.aenc == "N" else np.exp(a / self.q)
+        return self.aoff + a * self.ascale if self.aenc == "N" else np.exp(a / self.q)
 
     def hz(self, h):
         if h == NOEND:
@@ -87,14 +92,14 @@ class Instance:
         return x * self.fscale if self.fenc == "N" else math.exp(x / self.q)
 
     def a_mean(self, m):
-        return m * self.ascale if self.aenc == "N" else math.exp(m / self.q)
+        return self.aoff + m * self.ascale if self.aenc == "N" else math.exp(m / self.q)
 
     def a_std(self, v):
         return math.sqrt(v) * self.ascale if self.aenc == "N" else math.sqrt(v) / self.q
 
     def a_nth(self, m, v, n):
         x = m + n * math.sqrt(v)
-        return x * self.ascale if self.aenc == "N" else math.exp(x / self.q)
+        return self.aoff + x * self.ascale if self.aenc == "N" else math.exp(x / self.q)
 
     def cov_scale(self):
         fs = self.fscale if self.fenc == "N" else 1.0 / self.q
